@@ -250,6 +250,7 @@ type ServerConn struct {
 	Registered  []string
 	authLeft    int
 	ready       bool
+	readyFlag   int32
 	closedBy    string
 	// LastOp is the opcode of the last request received
 	LastOp byte
@@ -433,7 +434,7 @@ func (sc *ServerConn) handleFrame(h cqlref.Header, raw, body []byte) {
 			sc.authLeft = n.AuthSteps
 			sc.replyPlain(req, cqlref.OpAuthenticate, cqlref.BodyString(n.AuthClass))
 		} else {
-			sc.ready = true
+			sc.setReady()
 			sc.replyPlain(req, cqlref.OpReady, cqlref.BodyEmpty())
 		}
 	case cqlref.OpAuthResponse:
@@ -441,7 +442,7 @@ func (sc *ServerConn) handleFrame(h cqlref.Header, raw, body []byte) {
 			sc.authLeft--
 			sc.Reply(req, cqlref.OpAuthChallenge, nil, cqlref.BodyBytes([]byte(fmt.Sprintf("challenge-%d", sc.authLeft))))
 		} else {
-			sc.ready = true
+			sc.setReady()
 			sc.Reply(req, cqlref.OpAuthSuccess, nil, cqlref.BodyBytes(nil))
 		}
 	case cqlref.OpRegister:
@@ -806,7 +807,13 @@ func (n *Node) QueryCount(prefix string) int {
 }
 
 // Ready reports whether the connection completed its handshake.
-func (sc *ServerConn) Ready() bool { return sc.ready }
+func (sc *ServerConn) Ready() bool { return atomic.LoadInt32(&sc.readyFlag) == 1 }
+
+// setReady marks the handshake as complete (serve goroutine); Ready is read from checker goroutines.
+func (sc *ServerConn) setReady() {
+	sc.ready = true
+	atomic.StoreInt32(&sc.readyFlag, 1)
+}
 
 func (c *Cluster) BadFramesCopy() []string {
 	c.mu.Lock()
